@@ -34,6 +34,7 @@ EXPLANATION = (
     'wait reachable from these classes is a timed wait. C02.R9 (must-follow): after the exporter\'s ForceFlush in the '
     'completion helper the publication of the ticket follows on every path except those taken because the notified '
     'counter already covers the ticket (a necessary condition for ForceFlush/Shutdown termination when the exporter fails).')
+EXPLANATION += ' C02.R10 (fan-out over the flow graph): every layer that forwards ForceFlush/Shutdown to a list of children makes the child call in every iteration (no short-circuit, condition or continue in front of it) and does not leave the loop early.'
 NOT_DECIDED = ('termination/liveness of the timed loops under every interleaving and timeout; that a true ForceFlush '
                'really covered every record under all schedules (only the ordering/aggregation necessary conditions are decided).')
 
